@@ -26,6 +26,14 @@ def task_body(depth: int):
                 st.deferred(lambda: task_body(depth - 1)),
             )
         )
+        # a (sync) scope entered and left by the spawned task itself - possibly after the scope it inherited has completed
+        ops.append(
+            st.builds(
+                lambda s, b: {"k": "scope", "mode": "sync", "name": "t", "state": s, "disp": None, "body": b},
+                st.lists(P.sv_strategy(), min_size=0, max_size=1),
+                st.lists(simple, min_size=1, max_size=2),
+            )
+        )
     return st.builds(
         lambda body, end: body + ([end] if end else []),
         st.lists(st.one_of(*ops), min_size=1, max_size=3),
@@ -57,7 +65,7 @@ def program(disp_faults: bool = True, body_raises: bool = True, max_leaves: int 
     probe = st.just({"k": "probe", "lookups": [], "fp": True})
     sleep = st.builds(lambda t: {"k": "sleep", "t": t}, st.sampled_from([0.25, 0.5, 1, 2]))
     spawn = st.builds(lambda v, b: {"k": "spawn", "via": v, "body": b}, st.sampled_from(["ctx", "ctx", "ctx", "asyncio"]), task_body(1))
-    raise_ = st.builds(lambda e: {"k": "raise", "exc": e}, st.sampled_from(["Exception", "ExcSubclass", "BaseExc", "FalsyExc"]))
+    raise_ = st.builds(lambda e: {"k": "raise", "exc": e}, st.sampled_from(["Exception", "ExcSubclass", "BaseExc", "FalsyExc", "GenExit"]))
     leaf_ops = st.one_of(probe, sleep, spawn, spawn, st.just({"k": "yield"}))
     disp = fault_disp() if disp_faults else P.simple_disp_strategy()
 
@@ -67,6 +75,18 @@ def program(disp_faults: bool = True, body_raises: bool = True, max_leaves: int 
             st.lists(st.one_of(leaf_ops, children), min_size=1, max_size=4),
             st.one_of(st.none(), st.none(), st.none(), raise_) if body_raises else st.none(),
         )
+        if body_raises:
+            # a spawned task that fails EARLY and a body that fails (differently) a few steps later: the block must end with
+            # the body's own exception whichever of the two the task group hears about first
+            early = st.builds(
+                lambda pre, e1, n, e2: [
+                    {"k": "spawn", "via": "ctx", "body": [*([{"k": "yield"}] * pre), {"k": "raise", "exc": e1}]},
+                    *([{"k": "yield"}] * n),
+                    {"k": "raise", "exc": e2},
+                ],
+                st.integers(0, 1), st.sampled_from(["Exception", "ExcSubclass"]), st.integers(0, 3), st.sampled_from(["Exception", "ExcSubclass", "BaseExc"]),
+            )  # fmt: skip
+            body = st.one_of(body, body, body, body, early)
         a_scope = st.builds(
             lambda n, s, d, dobj, b: {"k": "scope", "mode": "async", "name": n, "state": s, "disp": d, "disp_obj": dobj, "body": b},
             names, svs, st.one_of(st.none(), st.lists(disp, min_size=1, max_size=3)), st.booleans(), body,
